@@ -31,6 +31,12 @@ def Chosen (N : Nat) (s : State) (t i : Nat) : Prop :=
 def Cmt (N : Nat) (s : State) (bound : Nat) (P : List Entry) : Prop :=
   P = [sentinel] ∨ ∃ t i, t ≤ bound ∧ Chosen N s t i ∧ P <+: s.g.termLog t ∧ P.length ≤ i + 1
 
+def Msg.isLogMsg : Msg → Bool
+  | .reqVote .. => true
+  | .append .. => true
+  | .snapshot .. => true
+  | _ => false
+
 /-- Voters of the in-flight `vote` messages for candidate `c` in term `t`. -/
 def inflight (msgs : List Msg) (t c : Nat) : List Nat :=
   msgs.filterMap fun m => match m with
@@ -52,5 +58,30 @@ structure InvE (N : Nat) (s : State) : Prop where
   el_quorum  : ∀ t l, s.g.leaderOf t = some l →
                  IsQuorum N (s.g.electors t) ∧ (∀ v ∈ s.g.electors t, s.g.voted t v = some l) ∧ l < N ∧ 0 < t
   ldr_le     : ∀ t l, s.g.leaderOf t = some l → t ≤ (s.nodes l).term
+
+structure InvL (N : Nat) (s : State) : Prop where
+  log_sent   : ∀ n, (s.nodes n).log[0]? = some sentinel
+  tl_zero    : s.g.termLog 0 = [sentinel]
+  tl_sent    : ∀ t, s.g.termLog t ≠ [] → (s.g.termLog t)[0]? = some sentinel
+  tl_ldr     : ∀ t, 0 < t → (s.g.termLog t = [] ↔ s.g.leaderOf t = none)
+  ldr_pos    : ∀ l, s.g.leaderOf 0 ≠ some l
+  cand_not_ldr : ∀ n, (s.nodes n).role = .candidate → s.g.leaderOf (s.nodes n).term ≠ some n
+  tl_terms   : ∀ t e, e ∈ s.g.termLog t → e.term ≤ t
+  tl_l2      : ∀ t j, j < (s.g.termLog t).length →
+                 Agree (s.g.termLog t) (s.g.termLog (termAt (s.g.termLog t) j)) j
+  log_l2     : ∀ n j, j < (s.nodes n).log.length →
+                 Agree (s.nodes n).log (s.g.termLog (termAt (s.nodes n).log j)) j
+  log_terms  : ∀ n e, e ∈ (s.nodes n).log → e.term ≤ (s.nodes n).term
+  ldr_log    : ∀ n, (s.nodes n).role = .leader → (s.nodes n).log = s.g.termLog (s.nodes n).term
+  msg_append : ∀ t l d prev pt es c, Msg.append t l d prev pt es c ∈ s.msgs →
+                 prev < (s.g.termLog t).length ∧ termAt (s.g.termLog t) prev = pt ∧
+                 es <+: (s.g.termLog t).drop (prev + 1) ∧ 0 < t
+  msg_snap   : ∀ t l d k kt c pfx, Msg.snapshot t l d k kt c pfx ∈ s.msgs →
+                 k < (s.g.termLog t).length ∧ pfx = (s.g.termLog t).take (k + 1) ∧
+                 kt = termAt (s.g.termLog t) k ∧ k ≤ c ∧ 0 < t
+  msg_reqVote_le : ∀ t c d li lt, Msg.reqVote t c d li lt ∈ s.msgs → t ≤ (s.nodes c).term
+  msg_reqVote : ∀ t c d li lt, Msg.reqVote t c d li lt ∈ s.msgs →
+                 (s.nodes c).role = .candidate → (s.nodes c).term = t →
+                 li = (s.nodes c).log.length - 1 ∧ lt = lastTerm (s.nodes c).log
 
 end PSO.Raft
